@@ -491,12 +491,23 @@ func (s *state) buildMsg(act graph.M) sdk.Msg {
 	}
 	switch graph.Str(act["name"]) {
 	case "createpool":
-		return &vtypes.MsgCreateVestingPool{Owner: s.bech(graph.Str(x["o"])), Name: graph.Str(x["n"]), Amount: sdk.NewInt(graph.Num(act["amt"])),
+		// (the owner of every pool with a four-tick lock is spelled in upper case, see "send")
+		owner := s.bech(graph.Str(x["o"]))
+		if _, known := s.addr[graph.Str(x["o"])]; known && graph.Num(x["dur"]) == 4 {
+			owner = strings.ToUpper(owner)
+		}
+		return &vtypes.MsgCreateVestingPool{Owner: owner, Name: graph.Str(x["n"]), Amount: sdk.NewInt(graph.Num(act["amt"])),
 			Duration: time.Duration(graph.Num(x["dur"])) * time.Second, VestingType: graph.Str(x["vt"])}
 	case "withdraw":
 		return &vtypes.MsgWithdrawAllAvailable{Owner: s.bech(graph.Str(x["o"]))}
 	case "send":
-		return &vtypes.MsgSendToVestingAccount{Owner: s.bech(graph.Str(x["o"])), ToAddress: s.bech(graph.Str(x["to"])), VestingPoolName: graph.Str(x["n"]),
+		// addresses are abstract in the model; the harness spells the recipient of every restarted send in upper case (bech32
+		// allows it, ValidateBasic accepts it): the same account, whatever the spelling in the message
+		to := s.bech(graph.Str(x["to"]))
+		if _, known := s.addr[graph.Str(x["to"])]; known && graph.Bool(x["restart"]) {
+			to = strings.ToUpper(to)
+		}
+		return &vtypes.MsgSendToVestingAccount{Owner: s.bech(graph.Str(x["o"])), ToAddress: to, VestingPoolName: graph.Str(x["n"]),
 			Amount: sdk.NewInt(graph.Num(act["amt"])), RestartVesting: graph.Bool(x["restart"])}
 	case "createacc":
 		return &vtypes.MsgCreateVestingAccount{FromAddress: s.bech(graph.Str(x["from"])), ToAddress: s.bech(graph.Str(x["to"])), Amount: coinsFor(graph.Rec(act["c"]), graph.List(x["ds"])),
